@@ -203,7 +203,127 @@ class C16:
                        "{CR,LF,x} up to length 7/10")
 
 
-LEAF = {"C15": C15, "C16": C16}
+# ------------------------------------------------------------------------------------------- C06
+class C06:
+    module = "Properties_C06"
+
+    @staticmethod
+    def corpus():
+        c = []
+        for t in ["227 Entering Passive Mode (127,0,0,1,200,10).", "227 ok (127,0,0,1,256,0)", "227 ok (127,0,0,1,255,65535)",
+                  "227 ok (127,0,0,1,0,256)", "227 ok (1,2,3,4,5,6,)", "227 ok (1,2,3,4,5)", "227 ok (1,2,3,4,5,6,7)",
+                  "227 ok 1,2,3,4,5,6", "227 ok (1,2,3,4,5,6", "227 ok 1,2,3,4,5,6)", "227 ok )1,2,3,4,5,6(", "227 ()",
+                  "227 (,,,,,)", "227 (1,2,3,4,,6)", "227 (a,b,c,d,1,2)", "227 (1,2,3,4,+5,6)", "227 (1,2,3,4,5,6) (x)",
+                  "227 (x) (1,2,3,4,5,6)", "227 ((1,2,3,4,5,6))", "227 (1,2,3,4,00005,006)", "227 (999,2,3,4,5,6)",
+                  "227 (1,2,3,4,5,18446744073709551616)", "227 (1,2,3,4,5,65536)", "227 (1,2,3,4, 5,6)"]:
+            c.append("pasv " + S(t))
+        for t in ["229 Entering Extended Passive Mode (|||6446|)", "229 ok (|||6446)", "229 ok (1234567|)", "229 ok (|||65535|)",
+                  "229 ok (|||65536|)", "229 ok (|||0|)", "229 ok (!!!21!)", "229 ok (~~~21~)", "229 ok (   21 )",
+                  "229 ok (\x7f\x7f\x7f21\x7f)", "229 ok (|||21!)", "229 ok (||!21|)", "229 ok (||||)", "229 ok (|||)",
+                  "229 ok (|||||)", "229 ok |||21|", "229 ok (|||21|", "229 ok ()", "229 (x) (|||21|)", "229 (|||21|) (x)",
+                  "229 ok (|||+21|)", "229 ok (||| 21|)", "229 ok (|||021|)", "229 ok (111211)", "229 ok (|1|::1|21|)"]:
+            c.append("epsv " + S(t))
+        c += ["portcmd 4 127 0 0 1 51210", "portcmd 6 %s 51210" % S("::1"), "eprtcmd 4 127 0 0 1 51210",
+              "eprtcmd 6 %s 51210" % S("::1"), "portcmd 4 255 255 255 255 65535", "portcmd 4 0 0 0 0 0"]
+        return c
+
+    @staticmethod
+    def generate(rng, tier, dist):
+        thorough = tier == "thorough"
+        cases = []
+        # all 65536 (p1,p2) pairs through the 227 parser; all ports through both formatters and back
+        for p1 in range(256):
+            for p2 in range(256):
+                cases.append("pasv " + S("227 ok (10,1,2,3,%d,%d)" % (p1, p2)))
+        dist.add("pasv:all-65536-port-pairs", 65536)
+        for p in range(65536):
+            cases.append("port_rt 192 168 %d %d %d" % (p % 256, (p // 7) % 256, p))
+            cases.append("epsv " + S("229 ok (|||%d|)" % p))
+        dist.add("port_rt:all-65536-ports", 65536)
+        dist.add("epsv:all-65536-ports", 65536)
+        step = 1 if thorough else 7
+        for p in range(0, 65536, step):
+            cases.append("eprt_rt %d" % p)
+            cases.append("portcmd 4 10 0 %d %d %d" % (p % 251, p % 256, p))
+            dist.add("eprt_rt/portcmd:ports")
+        # field values around the limits
+        vals = [0, 1, 9, 10, 99, 100, 199, 254, 255, 256, 257, 300, 999, 1000, 65279, 65535, 65536, 65537, 2 ** 32, 2 ** 64 - 1, 2 ** 64]
+        for a in vals:
+            for b in vals:
+                cases.append("pasv " + S("227 ok (1,2,3,4,%d,%d)" % (a, b)))
+                dist.add("pasv:field-limits")
+            for lead in ("", "0", "00"):
+                cases.append("epsv " + S("229 ok (|||%s%d|)" % (lead, a)))
+                cases.append("pasv " + S("227 ok (%s%d,2,3,%d,1,2)" % (lead, a, a)))
+                dist.add("epsv/pasv:limits-leading-zeros")
+        # delimiters 0..255 for 229
+        for d in range(256):
+            if d in (40, 41):
+                continue
+            ch = chr(d)
+            for t in ["229 ok (%s%s%s21%s)" % (ch, ch, ch, ch), "229 ok (%s%s%s21|)" % (ch, ch, ch), "229 ok (|%s|21|)" % ch]:
+                cases.append("epsv " + H(t.encode("latin-1")))
+                dist.add("epsv:all-delimiter-bytes")
+        # all malformed parenthesised parts over a small alphabet
+        maxlen = 7 if thorough else 5
+        alpha = "1,(|)"
+        for n in range(0, maxlen + 1):
+            for t in itertools.product(alpha, repeat=n):
+                u = "".join(t)
+                cases.append("pasv " + S("227 " + u))
+                cases.append("epsv " + S("229 " + u))
+            dist.add("pasv/epsv:alphabet-len-%d" % n, 2 * len(alpha) ** n)
+        # surrounding texts, structured mutations
+        for _ in range(20000 if thorough else 3000):
+            f = [str(rng.choice([0, 1, 12, 127, 255, 256, rng.randrange(0, 300), rng.randrange(0, 70000)])) for _ in range(6)]
+            inner = ",".join(f)
+            r = rng.random()
+            if r < 0.15:
+                k = rng.randrange(len(inner) + 1)
+                inner = inner[:k] + rng.choice(",,() x.-+\x00") + inner[k:]
+            elif r < 0.25:
+                f.pop(rng.randrange(6)); inner = ",".join(f)
+            elif r < 0.3:
+                inner += "," + str(rng.randrange(300))
+            pre = rng.choice(["227 Entering Passive Mode ", "227 ", "", "227 =", "227 ok ) ", "227 ok , "])
+            suf = rng.choice(["", ".", " ok", " ( ", "\r\n", ","])
+            cases.append("pasv " + H((pre + "(" + inner + ")" + suf).encode("latin-1")))
+            dist.add("pasv:random-structured")
+            d = rng.choice("|||||!~#/,1a ")
+            port = str(rng.choice([0, 21, 1023, 6446, 65535, 65536, rng.randrange(0, 70000)]))
+            inner = d * 3 + port + d
+            r = rng.random()
+            if r < 0.2:
+                k = rng.randrange(len(inner) + 1)
+                inner = inner[:k] + rng.choice("|!() x0") + inner[k:]
+            elif r < 0.3:
+                k = rng.randrange(len(inner))
+                inner = inner[:k] + inner[k + 1:]
+            cases.append("epsv " + H((pre.replace("227", "229") + "(" + inner + ")" + suf).encode("latin-1")))
+            dist.add("epsv:random-structured")
+        for t in ["::1", "fe80::1", "2001:db8::1", "::"]:
+            for p in (0, 1, 255, 256, 51210, 65535):
+                cases.append("portcmd 6 %s %d" % (S(t), p))
+                cases.append("eprtcmd 6 %s %d" % (S(t), p))
+                dist.add("port/eprt:ipv6")
+        for _ in range(3000 if thorough else 500):
+            a, b, c, d = [rng.choice([0, 1, 9, 10, 99, 100, 127, 255, rng.randrange(256)]) for _ in range(4)]
+            p = rng.choice([0, 255, 256, 65535, rng.randrange(65536)])
+            cases.append("portcmd 4 %d %d %d %d %d" % (a, b, c, d, p))
+            cases.append("eprtcmd 4 %d %d %d %d %d" % (a, b, c, d, p))
+            dist.add("port/eprt:ipv4-random")
+        return cases
+
+    @staticmethod
+    def nontrivial(case, model):
+        return not model.startswith("none") and not model.startswith("exn")
+
+    exhaustive_note = ("all 65536 (p1,p2) pairs through the 227 parser; all 65536 ports through PORT and back through the 227 "
+                       "parser, and through the 229 parser; all 254 delimiter bytes; all texts over {1 , ( | )} up to "
+                       "length 5 (quick) / 7 (thorough) after the code")
+
+
+LEAF = {"C15": C15, "C16": C16, "C06": C06}
 
 
 def evaluate(prop, cases, tag):
